@@ -144,14 +144,20 @@ Proof.
   rewrite (H1 x Hx), (H2 x Hx). reflexivity.
 Qed.
 
+Lemma all_nodes_true i : all_nodes (fun _ _ _ => true) (fun _ => true) i = true.
+Proof.
+  induction i as [v|q ats ks IH] using item_ind2; cbn [all_nodes]; [reflexivity|].
+  apply forallb_forall. intros k Hk. rewrite Forall_forall in IH. exact (IH k Hk).
+Qed.
+
 Definition t_u0 (u0 : option str) : item -> bool :=
   match u0 with Some u => t_default_not_on_attr u | None => fun _ => true end.
 
 Lemma wf_guard_of u0 t :
-  t_names_ok t = true -> t_texts_ok t = true -> t_no_cr t = true -> t_attrs_present t = true ->
+  t_names_ok t = true -> t_texts_ok t = true -> t_attrs_present t = true ->
   t_u0 u0 t = true -> wf_guard u0 t = true.
 Proof.
-  intros H1 H2 H3 H4 H5.
+  intros H1 H2 H4 H5. pose proof (all_nodes_true t) as H3.
   assert (H5' : all_nodes (fun _ ats _ => forallb (fun a => u0_differs u0 (fst (fst a))) ats) (fun _ => true) t = true).
   { unfold t_u0 in H5. destruct u0 as [u|]; [exact H5|].
     clear. induction t as [v|q ats ks IH] using item_ind2; cbn [all_nodes]; [reflexivity|].
@@ -173,9 +179,8 @@ Proof.
     + exact (Hn4 a Ha).
     + exact (Hn5 a Ha).
   - intros v Hv. unfold data_wf.
-    apply andb_true_iff in Hv as [Hv1 Hv]. apply andb_true_iff in Hv as [Hv2 Hv].
-    apply andb_true_iff in Hv as [Hv3 _].
-    rewrite <- value_names_ok_qnames, Hv1. unfold value_texts_ok. rewrite Hv2, Hv3. reflexivity.
+    apply andb_true_iff in Hv as [Hv1 Hv]. apply andb_true_iff in Hv as [Hv2 _].
+    rewrite <- value_names_ok_qnames, Hv1. unfold value_texts_ok. rewrite Hv2. reflexivity.
 Qed.
 
 (* ------------------------------------------------------------------ control-flow guard of WriterStep *)
@@ -255,12 +260,12 @@ Proof.
   apply andb_true_iff in Hu as [Hu Hdq]. apply andb_true_iff in Hu as [Hleg Hda].
   apply andb_true_iff in He as [He Hwf]. apply andb_true_iff in He as [He Hck].
   apply andb_true_iff in He as [He Hnil]. apply andb_true_iff in He as [He Hlate].
-  apply andb_true_iff in He as [He Hadj]. apply andb_true_iff in He as [He Hcr].
+  apply andb_true_iff in He as [He Hadj].
   apply andb_true_iff in He as [Hnames Htexts].
   unfold events_wf in Hwf. apply andb_true_iff in Hwf as [Hwn Hpres].
   unfold well_nested_b in Hwn. destruct (doc_tree evs) as [t|] eqn:Et; [|discriminate].
   unfold texts_ok in Htexts. apply andb_true_iff in Htexts as [Htexts Hcfg].
-  unfold names_ok, no_cr_in_data, no_adjacent_data, no_late_qname_data, nil_content_ok,
+  unfold names_ok, no_adjacent_data, no_late_qname_data, nil_content_ok,
     no_clark_datatype_text, on_tree in *. rewrite Et in *.
   exists t. constructor.
   - exact Et.
@@ -419,11 +424,6 @@ Qed.
 Definition t_dq (u0 : option str) : item -> bool :=
   match u0 with Some u => t_default_qname_ok u | None => fun _ => true end.
 
-Lemma all_nodes_true i : all_nodes (fun _ _ _ => true) (fun _ => true) i = true.
-Proof.
-  induction i as [v|q ats ks IH] using item_ind2; cbn [all_nodes]; [reflexivity|].
-  apply forallb_forall. intros k Hk. rewrite Forall_forall in IH. exact (IH k Hk).
-Qed.
 
 Lemma forallb_const_true {A} (l : list A) : forallb (fun _ => true) l = true.
 Proof. induction l; [reflexivity|exact IHl]. Qed.
